@@ -114,10 +114,12 @@ func Iterate(obj Object, fn func(Object) bool) error {
 		}
 		for {
 			item, err := Next(iterator)
-			if err == StopIteration {
-				break
-			}
 			if err != nil {
+				// StopIteration raised as class or as instance (by a
+				// Python-level __next__) ends the iteration
+				if IsException(StopIteration, err) {
+					break
+				}
 				return err
 			}
 			if fn(item) {
